@@ -1139,14 +1139,19 @@ spdiag(PyTypeObject *type, PyObject *args, PyObject *kwds)
     if (!ret) return NULL;
     SP_COL(ret)[0] = 0;
 
-    for (k=0; k<SP_NNZ(diag); k++) {
+    int_t jd, idx;
+    for (jd=0; jd<SP_NCOLS(diag); jd++) {
+      for (k=SP_COL(diag)[jd]; k<SP_COL(diag)[jd+1]; k++) {
 
-      SP_COL(ret)[SP_ROW(diag)[k]+1] = 1;
-      SP_ROW(ret)[k] = SP_ROW(diag)[k];
-      if (SP_ID(diag) == DOUBLE)
-        SP_VALD(ret)[k] = SP_VALD(diag)[k];
-      else
-        SP_VALZ(ret)[k] = SP_VALZ(diag)[k];
+        /* position of the entry in the (row or column) vector */
+        idx = SP_ROW(diag)[k] + jd*SP_NROWS(diag);
+        SP_COL(ret)[idx+1] = 1;
+        SP_ROW(ret)[k] = idx;
+        if (SP_ID(diag) == DOUBLE)
+          SP_VALD(ret)[k] = SP_VALD(diag)[k];
+        else
+          SP_VALZ(ret)[k] = SP_VALZ(diag)[k];
+      }
     }
 
     for (k=0; k<n; k++) SP_COL(ret)[k+1] += SP_COL(ret)[k];
